@@ -86,7 +86,8 @@ static int build_hello(const hello_t *h, unsigned char *out, const unsigned char
 typedef struct {
     int cmask, smask;                 /* version sets (bit i = MX_ version i) */
     int nsu; uint16_t su[8];          /* client suite list (0 = library default) */
-    uint16_t sdis[4]; int nsdis;      /* suites the server disables for its session */
+    uint16_t sdis[8]; int nsdis;      /* suites disabled on the server when its ClientHello arrives (with a history: the reference set the history leaves behind) */
+    int nops; struct { uint16_t id; unsigned char en, glob; } ops[6];   /* history of matrixSslSetCipherSuiteEnabledStatus calls (en 1 = re-enable; glob 1 = ssl == NULL, process-wide), made after both sessions exist */
     int ngroupsC, ngroupsS; uint16_t groupsC[4], groupsS[4]; int shares;
     int nsigC, nsigS; uint16_t sigC[10], sigS[10];
     int emsC, emsS, scsv, ecdsa;
@@ -95,11 +96,15 @@ typedef struct {
     int sig;                          /* 1 = judged by the signature-algorithm oracle (server auth), 2 = client-auth variant */
     uint16_t force; int forceRole;    /* rogue signer: endpoint forceRole signs with `force` whatever the verifier offered */
     int hrr;                          /* the configuration must go through HelloRetryRequest */
+    int ticket;                       /* client asks for / presents an RFC 5077 ticket */
+    int ems;                          /* extended-master-secret scenario: 1 = full handshake, 2 = session-id resumption, 3 = ticket resumption; emsC/emsS (-1 disabled, 0 enabled, 1 required) describe the judged
+                                         connection, emsC1/emsS1 the one that established the session */
+    int emsC1, emsS1;
 } cfg_t;
 typedef struct { int kind, field, arg, arg2, which; } tamper_t;   /* kind 0 = none, 1 = ClientHello edit, 2 = ServerHello edit; which 0 = first hello of that direction the edit applies to,
                                                                       n = exactly the n-th hello of that direction (HelloRetryRequest handshakes: ClientHello1/2, HelloRetryRequest = 1st, ServerHello = 2nd) */
-enum { F_LEGACY = 0, F_RANDOM_TAIL, F_SID, F_SUITE_DROP, F_SUITE_INSERT, F_SUITE_SWAP, F_SUITE_SET, F_COMP, F_EXT_REMOVE, F_EXT_DUP, F_EXT_EDIT, F_EXT_APPEND, F_SV_DROP13, F_N };
-static const char *fname[] = { "legacy-version", "random-tail", "session-id", "suite-drop", "suite-insert", "suite-swap", "suite-set", "compression", "ext-remove", "ext-duplicate", "ext-edit-byte", "ext-append-unknown", "supported-versions-drop-1.3" };
+enum { F_LEGACY = 0, F_RANDOM_TAIL, F_SID, F_SUITE_DROP, F_SUITE_INSERT, F_SUITE_SWAP, F_SUITE_SET, F_COMP, F_EXT_REMOVE, F_EXT_DUP, F_EXT_EDIT, F_EXT_APPEND, F_SV_DROP13, F_SV_ONLY11, F_N };
+static const char *fname[] = { "legacy-version", "random-tail", "session-id", "suite-drop", "suite-insert", "suite-swap", "suite-set", "compression", "ext-remove", "ext-duplicate", "ext-edit-byte", "ext-append-unknown", "supported-versions-drop-1.3", "supported-versions-only-1.1" };
 
 /* ---------------------------------------------------------------- identities ---- */
 enum { KT_RSA = 0, KT_P256, KT_P384, KT_P521 };
@@ -152,7 +157,8 @@ uint16_t __wrap_tls13ChooseSigAlg(ssl_t *ssl, const uint16_t *peerSigAlgs, psSiz
 
 /* ---------------------------------------------------------------- wire observer ---- */
 typedef struct {
-    int v13, nCH, nHRR, nSH, ske, cvC, cvS, sawCreq, nOff, nCreq, ccs[2]; uint16_t off[64], creq[64]; unsigned long long hsseq[2];
+    int v13, nCH, nHRR, nSH, ske, cvC, cvS, sawCreq, nOff, nCreq, ccs[2];
+    int abbrev, chEms, shEms, chTicket, chSid, nCertS, chLegacy, shLegacy, shComp, chNcomp, chComp0, shSuite; unsigned char shTail[8];   /* of the last ClientHello / ServerHello */ uint16_t off[64], creq[64]; unsigned long long hsseq[2];
     unsigned char hs[2][70000]; int hslen[2], hspos[2];
 } wire_t;
 static const unsigned char hrr_random[32] = { 0xCF, 0x21, 0xAD, 0x74, 0xE5, 0x9A, 0x61, 0x11, 0xBE, 0x1D, 0x8C, 0x02, 0x1E, 0x65, 0xB8, 0x91, 0xC2, 0xA2, 0x11, 0x16, 0x7A, 0xBB, 0x8C, 0x5E, 0x07, 0x9E, 0x09, 0xE2, 0xC8, 0xA8, 0x33, 0x9C };
@@ -167,19 +173,23 @@ static void wire_msg(wire_t *w, int dir, int dtls, int type, const unsigned char
 {
     const unsigned char *e = b + l, *x; int xl;
     if (dir == 0 && type == 1) {
-        w->nCH++; const unsigned char *p = b + 34; if (p >= e) return; p += 1 + p[0]; if (dtls) { if (p >= e) return; p += 1 + p[0]; }
-        if (p + 2 > e) return; p += 2 + ((p[0] << 8) | p[1]); if (p >= e) return; p += 1 + p[0];
+        w->nCH++; const unsigned char *p = b + 34; if (p >= e) return; w->chLegacy = (b[0] << 8) | b[1]; w->chSid = p[0]; p += 1 + p[0]; if (dtls) { if (p >= e) return; p += 1 + p[0]; }
+        if (p + 2 > e) return; p += 2 + ((p[0] << 8) | p[1]); if (p >= e) return; w->chNcomp = p[0]; w->chComp0 = p[0] ? p[1] : -1; p += 1 + p[0];
         if ((x = find_ext(p, e, 13, &xl))) w->nOff = read_alg_list(x, xl, w->off, 64);
+        w->chEms = find_ext(p, e, 23, &xl) != NULL; w->chTicket = (x = find_ext(p, e, 35, &xl)) ? xl : 0;
     } else if (dir == 0 && type == 15) { if (l >= 2) w->cvC = (b[0] << 8) | b[1]; }
     else if (dir == 1 && type == 2) {
         if (l < 38) return; if (!memcmp(b + 2, hrr_random, 32)) w->nHRR++; else w->nSH++;
-        const unsigned char *p = b + 34; p += 1 + p[0] + 3; if ((x = find_ext(p, e, 43, &xl)) && xl >= 2 && x[0] == 3 && x[1] == 4) w->v13 = 1;
+        const unsigned char *p = b + 34; w->shLegacy = (b[0] << 8) | b[1]; memcpy(w->shTail, b + 26, 8); if (p + 1 + p[0] + 3 > e) return; w->shSuite = (p[1 + p[0]] << 8) | p[2 + p[0]]; w->shComp = p[3 + p[0]];
+        p += 1 + p[0] + 3; if ((x = find_ext(p, e, 43, &xl)) && xl >= 2 && x[0] == 3 && x[1] == 4) w->v13 = 1;
+        w->shEms = find_ext(p, e, 23, &xl) != NULL;
     } else if (dir == 1 && type == 12) { if (!w->v13 && l >= 4 && b[0] == 3) { int pl = b[3]; if (4 + pl + 2 <= l) w->ske = (b[4 + pl] << 8) | b[5 + pl]; } }
     else if (dir == 1 && type == 13) {
         w->sawCreq = 1; if (l < 1) return; const unsigned char *p = b + 1 + b[0];
         if (w->v13) { if ((x = find_ext(p, e, 13, &xl))) w->nCreq = read_alg_list(x, xl, w->creq, 64); }
         else if (p + 2 <= e) w->nCreq = read_alg_list(p, (int) (e - p), w->creq, 64);
     } else if (dir == 1 && type == 15) { if (l >= 2) w->cvS = (b[0] << 8) | b[1]; }
+    else if (dir == 1 && type == 11) w->nCertS++;
 }
 static void wire_drain(wire_t *w, int dir)
 {
@@ -189,7 +199,8 @@ static void wire_append(wire_t *w, int dir, const unsigned char *p, int n) { if 
 /* everything endpoint snd is about to send in direction dir (0 = client -> server) */
 static void wire_flight(wire_t *w, mx_ep *snd, int dir, const unsigned char *b, int n, int dtls)
 {
-    static unsigned char plain[70000]; int off = 0; mx_rec r;
+    static unsigned char plain[70000]; int off = 0; mx_rec r; int sh0 = w->nSH, ccsHere = 0;
+    for (int o = 0; mx_rec_at(b, n, o, dtls, &r); o += r.hdr + r.len) if (r.type == 20) ccsHere = 1;
     while (mx_rec_at(b, n, off, dtls, &r)) {
         const unsigned char *p = b + off + r.hdr; int tot = r.hdr + r.len;
         if (dtls) {
@@ -203,6 +214,7 @@ static void wire_flight(wire_t *w, mx_ep *snd, int dir, const unsigned char *b, 
         }
         off += tot;
     }
+    if (dir == 1 && w->nSH > sh0 && ccsHere && !w->v13) w->abbrev = 1;   /* (D)TLS <= 1.2: ChangeCipherSpec in the ServerHello flight = abbreviated handshake */
 }
 
 static void open_pair(mx_conn *k, const cfg_t *c, sslSessionId_t *sid, int *rcs, int *rcc)
@@ -226,17 +238,21 @@ static void open_pair(mx_conn *k, const cfg_t *c, sslSessionId_t *sid, int *rcs,
     if (c->ngroupsC) matrixSslSessOptsSetKeyExGroups(&co, (uint16_t *) c->groupsC, c->ngroupsC, c->shares ? c->shares : 1);
     if (c->nsigS) matrixSslSessOptsSetSigAlgs(&so, (uint16_t *) c->sigS, c->nsigS);
     if (c->nsigC) matrixSslSessOptsSetSigAlgs(&co, (uint16_t *) c->sigC, c->nsigC);
-    if (c->emsS < 0) so.extendedMasterSecret = -1; if (c->emsC < 0) co.extendedMasterSecret = -1;
+    so.extendedMasterSecret = c->emsS < 0 ? -1 : c->emsS > 0; co.extendedMasterSecret = c->emsC < 0 ? -1 : c->emsC > 0;
+    if (c->ticket) co.ticketResumption = 1;
     if (c->scsv) co.fallbackScsv = 1;
     memset(&k->s, 0, sizeof k->s); memset(&k->c, 0, sizeof k->c);
     k->s.role = MX_SERVER; k->s.id = 1; k->s.name = "S"; k->c.role = MX_CLIENT; k->c.id = 0; k->c.name = "C";
     k->s.ver = k->c.ver = dtls ? MX_DTLS12 : MX_TLS12;
     sslKeys_t *sk = c->idS ? ident[c->idS].keys : c->ecdsa ? mx_keys.srv_ec : mx_keys.srv_rsa, *ck = c->idC ? ident[c->idC].keys : c->idS ? cli_all : mx_keys.cli;
     mx_actor = 1; MX_ENTER(); *rcs = matrixSslNewServerSession(&k->s.ssl, sk, c->idC ? mx_cert_cb_accept : NULL, &so); MX_LEAVE();
-    if (*rcs >= 0) for (int i = 0; i < c->nsdis; i++) { MX_ENTER(); matrixSslSetCipherSuiteEnabledStatus(k->s.ssl, c->sdis[i], PS_FALSE); MX_LEAVE(); }
+    if (*rcs >= 0 && !c->nops) for (int i = 0; i < c->nsdis; i++) { MX_ENTER(); matrixSslSetCipherSuiteEnabledStatus(k->s.ssl, c->sdis[i], PS_FALSE); MX_LEAVE(); }
     psCipher16_t cs[8]; for (int i = 0; i < c->nsu; i++) cs[i] = c->su[i];
     mx_actor = 0; MX_ENTER(); *rcc = matrixSslNewClientSession(&k->c.ssl, ck, sid, c->nsu ? cs : NULL, c->nsu, mx_cert_cb_accept, NULL, NULL, NULL, &co); MX_LEAVE();
     k->c.wantTake = 1; if (*rcc > 0) *rcc = 0;
+    /* the history runs when the ClientHello is already encoded: a process-wide switch must bite in the server's selection, not in the client's offer */
+    if (*rcs >= 0 && *rcc >= 0) for (int i = 0; i < c->nops; i++) { mx_actor = 1; MX_ENTER(); int rc = matrixSslSetCipherSuiteEnabledStatus(c->ops[i].glob ? NULL : k->s.ssl, c->ops[i].id, c->ops[i].en ? PS_TRUE : PS_FALSE); MX_LEAVE();
+        if (rc != PS_SUCCESS) vf_incon("matrixSslSetCipherSuiteEnabledStatus(%s, %04x, %d) returned %d in %s", c->ops[i].glob ? "NULL" : "ssl", c->ops[i].id, c->ops[i].en, rc, cur_desc); }
 }
 
 typedef struct { cfg_t c; tamper_t t; const char *cls; } case_t;
@@ -263,6 +279,10 @@ static int apply_tamper(const tamper_t *t, unsigned char **buf, int *len, int dt
     case F_EXT_APPEND: if (h.next >= 39) return 0; if (!h.hasExt) h.hasExt = 1; h.ext[h.next].type = 0xfe01 + (t->arg & 7); h.ext[h.next].len = 3; h.ext[h.next].data = (const unsigned char *) "abc"; h.next++; break;
     case F_SV_DROP13: { /* remove TLS 1.3 from supported_versions: both sides could have done 1.3 */
         int found = 0; for (int i = 0; i < h.next; i++) if (h.ext[i].type == 43 && !h.isServer) { int l = h.ext[i].data[0], o = 1; scratch[0] = 0; for (int j = 0; j + 1 < l; j += 2) { if (h.ext[i].data[1 + j] == 3 && h.ext[i].data[2 + j] == 4) { found = 1; continue; } scratch[o++] = h.ext[i].data[1 + j]; scratch[o++] = h.ext[i].data[2 + j]; } scratch[0] = o - 1; if (o == 1) return 0; h.ext[i].data = scratch; h.ext[i].len = o; }
+        if (!found) return 0; } break;
+    case F_SV_ONLY11: { /* roll the offer back to TLS 1.1 alone: a 1.3-capable server marks its random with DOWNGRD 00 */
+        int found = 0; for (int i = 0; i < h.next; i++) if (h.ext[i].type == 43 && !h.isServer) { int l = h.ext[i].data[0], has13 = 0, has11 = 0; for (int j = 0; j + 1 < l; j += 2) { if (h.ext[i].data[1 + j] == 3 && h.ext[i].data[2 + j] == 4) has13 = 1; if (h.ext[i].data[1 + j] == 3 && h.ext[i].data[2 + j] == 2) has11 = 1; }
+            if (has13 && has11) { scratch[0] = 2; scratch[1] = 3; scratch[2] = 2; h.ext[i].data = scratch; h.ext[i].len = 3; found = 1; } }
         if (!found) return 0; } break;
     }
     int n = build_hello(&h, out, rec);
@@ -314,6 +334,83 @@ static void sig_oracle(const cfg_t *c, mx_conn *k, int done)
     }
     vf_stat("signature_negotiations_checked", 1);
 }
+/* same keys on both ends: 64 bytes each way must arrive */
+static void roundtrip(mx_conn *kp)
+{
+    { unsigned char p[64]; mx_payload(p, 64, 0x0c07, 0, 1); mx_send(&kp->c, p, 64); unsigned char *b; int n = mx_take(&kp->c, &b); if (n > 0) mx_feed(&kp->s, b, n); free(b);
+      if (kp->s.gotlen != 64 || memcmp(kp->s.got, p, 64)) report("data-does-not-round-trip", "64 bytes client->server after completion: server got %zu", kp->s.gotlen);
+      mx_payload(p, 64, 0x0c07, 1, 1); mx_send(&kp->s, p, 64); n = mx_take(&kp->s, &b); if (n > 0) mx_feed(&kp->c, b, n); free(b);
+      if (kp->c.gotlen != 64 || memcmp(kp->c.got, p, 64)) report("data-does-not-round-trip", "64 bytes server->client after completion: client got %zu", kp->c.gotlen); }
+}
+static int pump(mx_conn *k, const case_t *cs)   /* returns whether a first server flight was seen */
+{
+    /* pump flight by flight with the tamper hook on the chosen hello of each direction */
+    tamper_applied = 0; int done_t = 0; int shSeen = 0; int helloOrd[2] = { 0, 0 }; memset(&W, 0, sizeof W);
+    for (int round = 0; round < 40; round++) {
+        mx_ep *snd = (round & 1) ? &k->s : &k->c, *rcv = (round & 1) ? &k->c : &k->s;
+        if (k->dtls && !snd->wantTake && snd->ssl->outlen == 0) { if (round > 6) break; continue; }
+        unsigned char *b; int n = mx_take(snd, &b);
+        if (n <= 0) { free(b); if (round > 3) break; continue; }
+        wire_flight(&W, snd, round & 1, b, n, k->dtls);
+        if (vf_case) { fprintf(stderr, "  flight %d %s:", round, snd->name); int o = 0; mx_rec r; while (mx_rec_at(b, n, o, k->dtls, &r)) { fprintf(stderr, " [%d/%d%s%d]", r.type, r.len, r.type == 22 ? " hs" : " ", r.type == 22 ? b[o + r.hdr] : 0); o += r.hdr + r.len; } fprintf(stderr, "\n"); }
+        if (!done_t && cs->t.kind == 1 + (round & 1)) {
+            if (!cs->t.which) { if (apply_tamper(&cs->t, &b, &n, k->dtls, 0)) done_t = 1; }
+            else {   /* exactly the which-th hello of this direction; compatibility ChangeCipherSpec records in front of it are stepped over */
+                int o = 0; mx_rec r; hello_t h; while (mx_rec_at(b, n, o, k->dtls, &r) && r.type == 20) o += r.hdr + r.len;
+                if (mx_rec_at(b, n, o, k->dtls, &r) && parse_hello(b + o, r.hdr + r.len, k->dtls, &h) == 0 && h.isServer == (round & 1) && ++helloOrd[round & 1] == cs->t.which) { apply_tamper(&cs->t, &b, &n, k->dtls, o); done_t = 1; }
+            }
+        }
+        if (!rcv->dead) {
+            if (k->dtls) { int off = 0; mx_rec r; while (off < n && mx_rec_at(b, n, off, 1, &r)) { if (!rcv->dead) mx_feed(rcv, b + off, r.hdr + r.len); off += r.hdr + r.len; } }
+            else mx_feed(rcv, b, n);
+        }
+        if ((round & 1) && !shSeen && b[0] == 22) { shSeen = 1; client_dead_after_sh = k->c.dead || (k->c.ssl->flags & SSL_FLAGS_ERROR) != 0; client_state_after_sh = k->c.ssl->hsState; }
+        free(b);
+    }
+    return shSeen;
+}
+/* extended master secret (RFC 7627): one connection, or one that establishes a session (tolerant server) followed by the judged one that presents its session id / ticket
+   to a server session sharing the cache and the ticket keys.  In force = extension in the ClientHello and in the ServerHello of the judged connection. */
+static void run_ems_case(void *a_)
+{
+    case_t *cs = a_; cfg_t c = cs->c; mx_conn k; sslSessionId_t *sid; matrixSslNewSessionId(&sid, NULL); int rcs = 0, rcc = 0, E1 = -1;
+    case_t plain = *cs; memset(&plain.t, 0, sizeof plain.t); cur_class = cs->cls; vf_stat("cases", 1); force_alg = 0;
+    if (c.ems >= 2) {
+        cfg_t c1 = c; c1.emsC = c.emsC1; c1.emsS = c.emsS1;
+        open_pair(&k, &c1, sid, &rcs, &rcc);
+        if (rcs < 0 || rcc < 0) { vf_incon("session creation refused (%s)", cur_desc); if (rcs >= 0) mx_ep_free(&k.s); if (rcc >= 0) mx_ep_free(&k.c); matrixSslDeleteSessionId(sid); return; }
+        pump(&k, &plain);
+        int done1 = matrixSslHandshakeIsComplete(k.c.ssl) && !k.c.dead && matrixSslHandshakeIsComplete(k.s.ssl) && !k.s.dead;
+        E1 = W.chEms && W.shEms;
+        if (!done1 || W.abbrev) { vf_incon("the session to be resumed could not be established (%s)", cur_desc); mx_ep_free(&k.c); mx_ep_free(&k.s); matrixSslDeleteSessionId(sid); return; }
+        if (E1 != (c.emsC1 >= 0 && c.emsS1 >= 0)) report("ems-in-force-differs-from-configuration", "establishing connection: client %d server %d (-1 disabled, 0 enabled): extension in ClientHello %d, in ServerHello %d", c.emsC1, c.emsS1, W.chEms, W.shEms);
+        roundtrip(&k);
+        mx_ep_free(&k.c); mx_ep_free(&k.s);
+    }
+    open_pair(&k, &c, sid, &rcs, &rcc);
+    if (rcs < 0 || rcc < 0) { vf_incon("session creation refused (%s)", cur_desc); if (rcs >= 0) mx_ep_free(&k.s); if (rcc >= 0) mx_ep_free(&k.c); matrixSslDeleteSessionId(sid); return; }
+    pump(&k, &plain);
+    int done = matrixSslHandshakeIsComplete(k.c.ssl) && !k.c.dead && matrixSslHandshakeIsComplete(k.s.ssl) && !k.s.dead;
+    int ems = W.chEms && W.shEms, resumed = done && W.abbrev, bothOn = c.emsC >= 0 && c.emsS >= 0, mustFail = (c.emsS > 0 && c.emsC < 0) || (c.emsC > 0 && c.emsS < 0);
+    vf_distinct("%s|%x|%x|%d|%d|%d|%d|%d|%d", cs->cls, c.cmask, c.smask, c.ems, c.emsC1, c.emsS1, c.emsC, c.emsS, c.ticket);
+    vf_statf(1, "ems_%s_%s", c.ems == 1 ? "full" : c.ems == 2 ? "sessionid" : "ticket", !done ? "failed" : resumed ? (ems ? "resumed-with-ems" : "resumed-without-ems") : (ems ? "full-with-ems" : "full-without-ems"));
+    if (c.ems >= 2 && !(c.ems == 2 ? W.chSid > 0 : W.chTicket > 0)) { vf_incon("the client did not present its %s (%s)", c.ems == 2 ? "session id" : "ticket", cur_desc); goto out; }
+    if (c.ems >= 2 && c.emsC1 == 0 && c.emsS1 == 0 && c.emsC == 0 && c.emsS == 0 && !resumed) { vf_incon("resumption control did not resume (%s)", cur_desc); goto out; }
+    if (!done) {
+        if (c.ems == 1 && !mustFail) report("no-handshake-despite-common-version", "extended master secret client %d server %d (-1 disabled, 0 enabled, 1 required): the full handshake failed (client alert-in %d, server alert-in %d)", c.emsC, c.emsS, k.c.alertDesc, k.s.alertDesc);
+        goto out;
+    }
+    { int fc = k.c.ssl->extFlags.extended_master_secret, fs = k.s.ssl->extFlags.extended_master_secret;
+      if (fc != ems || fs != ems) report("endpoints-disagree", "extended master secret: on the wire %d, client state %d, server state %d", ems, fc, fs); }
+    if (!ems && (c.emsS > 0 || c.emsC > 0)) report("ems-required-but-not-in-force", "%s requires the extended master secret; the %s handshake completed without it (session established with it: %d; ClientHello carries the extension: %d)", c.emsS > 0 ? "server" : "client", resumed ? "abbreviated" : "full", E1, W.chEms);
+    if (ems && !bothOn) report("ems-in-force-although-disabled", "client %d server %d (-1 = disabled): the %s handshake completed with the extended master secret", c.emsC, c.emsS, resumed ? "abbreviated" : "full");
+    if (!ems && bothOn) report("ems-enabled-on-both-sides-but-not-in-force", "both sides enable the extended master secret; the %s handshake completed without it (session established with it: %d)", resumed ? "abbreviated" : "full", E1);
+    if (resumed && E1 >= 0 && ems != E1) report("ems-resumption-not-in-step", "session established %s the extended master secret was resumed %s it (RFC 7627 5.3)", E1 ? "with" : "without", ems ? "with" : "without");
+    roundtrip(&k);
+    vf_stat("ems_negotiations_checked", 1);
+out:
+    mx_ep_free(&k.c); mx_ep_free(&k.s); matrixSslDeleteSessionId(sid);
+}
 static void run_case(void *a_)
 {
     case_t *cs = a_; cfg_t *c = &cs->c; mx_conn k; sslSessionId_t *sid; matrixSslNewSessionId(&sid, NULL); int rcs = 0, rcc = 0;
@@ -322,29 +419,7 @@ static void run_case(void *a_)
     open_pair(&k, c, sid, &rcs, &rcc);
     int common = c->cmask & c->smask; int expectV = vmask_max(common);
     if (rcs < 0 || rcc < 0) { vf_stat("session_creation_refused", 1); if (c->sig || c->hrr) vf_incon("session creation refused for a %s configuration (%s)", cs->cls, cur_desc); if (rcs >= 0) mx_ep_free(&k.s); if (rcc >= 0) mx_ep_free(&k.c); return; }
-    /* pump flight by flight with the tamper hook on the chosen hello of each direction */
-    tamper_applied = 0; int done_t = 0; int shSeen = 0; int helloOrd[2] = { 0, 0 }; memset(&W, 0, sizeof W);
-    for (int round = 0; round < 40; round++) {
-        mx_ep *snd = (round & 1) ? &k.s : &k.c, *rcv = (round & 1) ? &k.c : &k.s;
-        if (k.dtls && !snd->wantTake && snd->ssl->outlen == 0) { if (round > 6) break; continue; }
-        unsigned char *b; int n = mx_take(snd, &b);
-        if (n <= 0) { free(b); if (round > 3) break; continue; }
-        wire_flight(&W, snd, round & 1, b, n, k.dtls);
-        if (vf_case) { fprintf(stderr, "  flight %d %s:", round, snd->name); int o = 0; mx_rec r; while (mx_rec_at(b, n, o, k.dtls, &r)) { fprintf(stderr, " [%d/%d%s%d]", r.type, r.len, r.type == 22 ? " hs" : " ", r.type == 22 ? b[o + r.hdr] : 0); o += r.hdr + r.len; } fprintf(stderr, "\n"); }
-        if (!done_t && cs->t.kind == 1 + (round & 1)) {
-            if (!cs->t.which) { if (apply_tamper(&cs->t, &b, &n, k.dtls, 0)) done_t = 1; }
-            else {   /* exactly the which-th hello of this direction; compatibility ChangeCipherSpec records in front of it are stepped over */
-                int o = 0; mx_rec r; hello_t h; while (mx_rec_at(b, n, o, k.dtls, &r) && r.type == 20) o += r.hdr + r.len;
-                if (mx_rec_at(b, n, o, k.dtls, &r) && parse_hello(b + o, r.hdr + r.len, k.dtls, &h) == 0 && h.isServer == (round & 1) && ++helloOrd[round & 1] == cs->t.which) { apply_tamper(&cs->t, &b, &n, k.dtls, o); done_t = 1; }
-            }
-        }
-        if (!rcv->dead) {
-            if (k.dtls) { int off = 0; mx_rec r; while (off < n && mx_rec_at(b, n, off, 1, &r)) { if (!rcv->dead) mx_feed(rcv, b + off, r.hdr + r.len); off += r.hdr + r.len; } }
-            else mx_feed(rcv, b, n);
-        }
-        if ((round & 1) && !shSeen && b[0] == 22) { shSeen = 1; client_dead_after_sh = k.c.dead || (k.c.ssl->flags & SSL_FLAGS_ERROR) != 0; client_state_after_sh = k.c.ssl->hsState; }
-        free(b);
-    }
+    int shSeen = pump(&k, cs);
     force_alg = 0;
     if (vf_case) fprintf(stderr, "  wire: v13=%d CH=%d HRR=%d SH=%d ske=%04x cvS=%04x cvC=%04x offered={%s} certreq=%d{%s} client.peerSigAlg=%04x\n", W.v13, W.nCH, W.nHRR, W.nSH, W.ske, W.cvS, W.cvC, algs_str(W.off, W.nOff), W.sawCreq, algs_str(W.creq, W.nCreq), k.c.ssl->peerSigAlg);
     int cdone = matrixSslHandshakeIsComplete(k.c.ssl) && !k.c.dead, sdone = matrixSslHandshakeIsComplete(k.s.ssl) && !k.s.dead;
@@ -364,12 +439,12 @@ static void run_case(void *a_)
             /* one side believing the handshake done is possible only transiently (last flight lost); it must not deliver data */
             vf_stat("tampered_one_side_complete", 1);
         }
-        if (cs->t.field == F_SV_DROP13 && cs->t.which < 2 && (c->cmask & c->smask & (1 << MX_TLS13)) && shSeen && !client_dead_after_sh)
+        if ((cs->t.field == F_SV_DROP13 || cs->t.field == F_SV_ONLY11) && cs->t.which < 2 && (c->cmask & c->smask & (1 << MX_TLS13)) && shSeen && !client_dead_after_sh)
             report("downgrade-sentinel-ignored", "ClientHello stripped of TLS 1.3: server answered with an older version and the client did not abort at ServerHello (hsState %d)", client_state_after_sh);
         goto out;
     }
     if (c->sig) { sig_oracle(c, &k, cdone && sdone); goto out; }
-    vf_distinct("%s|%d%d|%x|%x|%d|%04x|%d|%d|%d|%d|%d|%d", cs->cls, c->ascC, c->ascS, c->cmask, c->smask, c->nsu, c->nsu ? c->su[0] : 0, c->nsdis, c->ngroupsC, c->ngroupsS, c->nsigC, c->emsC * 3 + c->emsS, c->scsv);
+    vf_distinct("%s|%d%d|%x|%x|%d|%04x|%d|%d|%d|%d|%d|%d|%s", cs->cls, c->ascC, c->ascS, c->cmask, c->smask, c->nsu, c->nsu ? c->su[0] : 0, c->nsdis, c->ngroupsC, c->ngroupsS, c->nsigC, c->emsC * 3 + c->emsS, c->scsv, c->nops ? strstr(cur_desc, " hist=") : "");
     /* ---- reference negotiation ---- */
     int mustFail = expectV < 0;
     if (c->scsv && vmask_max(c->cmask) < vmask_max(c->smask)) mustFail = 1;      /* RFC 7507: server supports a higher version than the client offers with the SCSV */
@@ -385,6 +460,7 @@ static void run_case(void *a_)
     if (mustFail >= 2) { if (cdone && sdone) report(mustFail == 2 ? "completed-without-common-suite" : "completed-without-common-group", "handshake completed although the configurations share no usable %s", mustFail == 2 ? "cipher suite" : "key-exchange group"); goto out; }
     if (c->hrr && W.nHRR != 1) { vf_incon("configuration %s did not go through HelloRetryRequest (ClientHellos %d, HelloRetryRequests %d)", cur_desc, W.nCH, W.nHRR); goto out; }
     if (c->hrr && !(cdone && sdone)) { report("no-handshake-despite-common-group", "client groups and server groups share a group the client sent no key share for; after HelloRetryRequest the handshake failed (client alert-in %d, server alert-in %d)", k.c.alertDesc, k.s.alertDesc); goto out; }
+    if (c->nops && !(cdone && sdone)) { report("no-handshake-despite-enabled-common-suite", "the client offers a suite that the history of enable/disable calls leaves enabled on the server, yet the handshake failed (client alert-in %d, server alert-in %d)", k.c.alertDesc, k.s.alertDesc); goto out; }
     if (!(cdone && sdone)) {
         /* completeness is asserted only for the plain configurations (default lists): the reference model does not predict every legal refusal of exotic list combinations */
         if (!c->nsu && !c->nsdis && !c->ngroupsC && !c->ngroupsS && !c->nsigC && !c->nsigS && c->emsC >= 0 && c->emsS >= 0) report("no-handshake-despite-common-version", "client versions 0x%x server versions 0x%x share %s but the handshake failed (client alert-in %d, server alert-in %d)", c->cmask, c->smask, mx_vername[expectV], k.c.alertDesc, k.s.alertDesc);
@@ -409,11 +485,20 @@ static void run_case(void *a_)
         if (W.cvS && sa && W.cvS != sa) report("endpoints-disagree", "CertificateVerify on the wire carries 0x%04x, the client recorded 0x%04x", W.cvS, sa);
         if (c->nsigC && sa) { int in = 0; for (int i = 0; i < c->nsigC; i++) if (c->sigC[i] == sa) in = 1; if (!in) report("sigalg-not-offered", "server signed CertificateVerify with 0x%04x which the client did not offer", sa); }
     }
-    /* same keys: data must round-trip */
-    { unsigned char p[64]; mx_payload(p, 64, 0x0c07, 0, 1); mx_send(&k.c, p, 64); unsigned char *b; int n = mx_take(&k.c, &b); if (n > 0) mx_feed(&k.s, b, n); free(b);
-      if (k.s.gotlen != 64 || memcmp(k.s.got, p, 64)) report("data-does-not-round-trip", "64 bytes client->server after completion: server got %zu", k.s.gotlen);
-      mx_payload(p, 64, 0x0c07, 1, 1); mx_send(&k.s, p, 64); n = mx_take(&k.s, &b); if (n > 0) mx_feed(&k.c, b, n); free(b);
-      if (k.c.gotlen != 64 || memcmp(k.c.got, p, 64)) report("data-does-not-round-trip", "64 bytes server->client after completion: client got %zu", k.c.gotlen); }
+    /* hello-level fields of an honest run, read from the wire */
+    if (W.nSH) {
+        static const unsigned char dg[7] = "DOWNGRD"; int isSent = !memcmp(W.shTail, dg, 7) && W.shTail[7] <= 1;
+        if (W.shSuite != suc) report("endpoints-disagree", "ServerHello on the wire selects %04x, the endpoints report %04x", W.shSuite, suc);
+        if (W.shComp != 0 || W.chNcomp != 1 || W.chComp0 != 0) report("compression-not-null", "ClientHello offers %d compression methods (first %d), ServerHello selects %d", W.chNcomp, W.chComp0, W.shComp);
+        int wantSh = k.dtls ? (vc == MX_DTLS10 ? 0xfeff : 0xfefd) : vc == MX_TLS11 ? 0x0302 : 0x0303;
+        if (W.shLegacy != wantSh) report("serverhello-legacy-version", "negotiated %s but ServerHello.legacy_version is %04x", mx_vername[vc], W.shLegacy);
+        int cmax = vmask_max(c->cmask), wantCh = k.dtls ? (cmax == MX_DTLS10 ? 0xfeff : 0xfefd) : cmax == MX_TLS11 ? 0x0302 : 0x0303;
+        if (!c->ascC && !c->nsu && W.chLegacy != wantCh) report(   /* default suite list only: a list without TLS 1.3 suites makes a 1.3-enabled client write the hello of its highest usable version */"clienthello-legacy-version", "client's highest version is %s but ClientHello.legacy_version is %04x", mx_vername[cmax], W.chLegacy);
+        /* RFC 8446 4.1.3: a 1.3-capable server that negotiates 1.2 / 1.1 marks its random; nobody else does */
+        if (!k.dtls && (c->smask & (1 << MX_TLS13)) && vc < MX_TLS13) { if (!isSent || W.shTail[7] != (vc == MX_TLS12 ? 1 : 0)) report("downgrade-sentinel-missing", "TLS 1.3-capable server negotiated %s; ServerHello.random ends %02x%02x%02x%02x%02x%02x%02x%02x", mx_vername[vc], W.shTail[0], W.shTail[1], W.shTail[2], W.shTail[3], W.shTail[4], W.shTail[5], W.shTail[6], W.shTail[7]); else vf_stat("downgrade_sentinels_seen", 1); }
+        else if (isSent && !(!k.dtls && vc == MX_TLS11 && vmask_max(c->smask) == MX_TLS12)) report("downgrade-sentinel-unjustified", "ServerHello.random carries the downgrade sentinel although %s is the server's highest version", mx_vername[vc]);
+    }
+    roundtrip(&k);
     vf_stat("negotiations_checked", 1);
 out:
     mx_ep_free(&k.c); mx_ep_free(&k.s); matrixSslDeleteSessionId(sid);
@@ -443,7 +528,7 @@ int main(int argc, char **argv)
         for (int i = 0; i < 4; i++) { if (a & (1 << i)) c.groupsC[c.ngroupsC++] = grp[i]; if (b & (1 << i)) c.groupsS[c.ngroupsS++] = grp[3 - i]; } c.shares = 1; add_case(&c, NULL, "tls13-groups"); }
     static const uint16_t sigs[] = { 0x0401, 0x0804, 0x0501, 0x0805 };
     for (int a = 1; a < 16; a++) { cfg_t c = base; c.cmask = c.smask = 1 << MX_TLS13; for (int i = 0; i < 4; i++) if (a & (1 << i)) c.sigC[c.nsigC++] = sigs[i]; add_case(&c, NULL, "tls13-sigalgs"); }
-    for (int e = 0; e < 4; e++) for (int v = MX_TLS11; v <= MX_TLS12; v++) { cfg_t c = base; c.cmask = c.smask = 1 << v; c.emsC = (e & 1) ? -1 : 0; c.emsS = (e & 2) ? -1 : 0; add_case(&c, NULL, "extended-master-secret"); }
+    /* extended master secret: see 8. */
     /* 4. fallback SCSV */
     for (int cm = 1; cm < 8; cm++) for (int sm = 1; sm < 8; sm++) for (int ord = 0; ord < 4; ord++) { cfg_t c = base; c.cmask = cm; c.smask = sm; c.scsv = 1; c.ascC = ord & 1; c.ascS = ord >> 1; if (vmask_max(cm) == MX_TLS13) continue; add_case(&c, NULL, "fallback-scsv"); }
     /* 5. hello tampering: every field, on several configurations */
@@ -503,16 +588,46 @@ int main(int argc, char **argv)
             cfg_t d = c; d.force = f; d.forceRole = role == 1 ? MX_SERVER : MX_CLIENT; if (role == 1) { d.nsigC = 9; memcpy(d.sigC, U, 18); } else { d.nsigS = 9; memcpy(d.sigS, U, 18); }
             add_case(&d, NULL, role == 1 ? "rogue-signer-server" : "rogue-signer-client"); }
     }
+    /* 8. extended master secret incl. the REQUIRED option, on full handshakes and on both kinds of resumption (the session comes from a tolerant server session sharing cache and ticket keys) */
+    { static const int ev[4][2] = { { 1 << MX_TLS12, 1 << MX_TLS12 }, { 3 << MX_DTLS10, 3 << MX_DTLS10 }, { 6, 2 }, { 1 << MX_TLS11, 1 << MX_TLS11 } };   /* {6,2}: the 1.3-capable client's ClientHello is written by the TLS 1.3 encoder */
+      static const int e1[2][2] = { { 0, 0 }, { -1, 0 } };   /* how the session was established: with EMS, without (the client left the extension out; a server has no switch to decline it - dev guide, "Extended Master Secret") */
+      for (int vi = 0; vi < (vf_thorough ? 4 : 3); vi++) for (int mode = 1; mode <= 3; mode++) for (int a = 0; a < (mode == 1 ? 1 : 2); a++) for (int ec = -1; ec <= 1; ec++) for (int es = 0; es <= 1; es++) {
+          cfg_t c = base; c.cmask = ev[vi][0]; c.smask = ev[vi][1]; c.nsu = 1; c.su[0] = 0x002f; c.ems = mode; c.ticket = mode == 3; c.emsC1 = e1[a][0]; c.emsS1 = e1[a][1]; c.emsC = ec; c.emsS = es;
+          add_case(&c, NULL, mode == 1 ? "extended-master-secret" : mode == 2 ? "extended-master-secret-resumption-sessionid" : "extended-master-secret-resumption-ticket"); } }
+    /* 9. histories of matrixSslSetCipherSuiteEnabledStatus calls on the server (session-level and process-wide): the reference model is a set */
+    { static const struct { int cm, sm, ecdsa; uint16_t u[4]; } hu[] = {
+          { 2, 2, 0, { 0x002f, 0xc02f, 0xc030, 0x009c } }, { 2, 2, 1, { 0xc02b, 0xc02c, 0xc009, 0xc023 } }, { 4, 4, 0, { 0x1301, 0x1302, 0x1303, 0x002f } },
+          { 3 << MX_DTLS10, 3 << MX_DTLS10, 0, { 0xc02f, 0x002f, 0x003c, 0xc013 } }, { 1, 1, 0, { 0x002f, 0x0035, 0xc013, 0xc014 } } };
+      /* a history = string of steps, 'a'..'d' disable suite 0..3, 'A'..'D' re-enable it */
+      static const char *fixed[] = { "a", "ab", "aA", "aa", "abA", "abB", "aAa", "abc", "aaA", "bcd", "abcA", "abAc", "abAB", "abcB", "aAbA", "abAa", "abcd", "bacB", "cabC", "abBA" };
+      char hist[3000][6]; int nh = 0;
+      for (int i = 0; i < (int) (sizeof fixed / sizeof fixed[0]); i++) strcpy(hist[nh++], fixed[i]);
+      if (vf_thorough) { static const char al[] = "abcABC"; for (int len = 1; len <= 3; len++) { int tot = 1; for (int i = 0; i < len; i++) tot *= 6; for (int m = 0; m < tot; m++) { int x = m; for (int i = 0; i < len; i++) { hist[nh][i] = al[x % 6]; x /= 6; } hist[nh][len] = 0; nh++; } } }
+      int nfix = nh; for (int r = 0; r < (vf_thorough ? 400 : 8); r++) { int len = vf_thorough ? 4 : 2 + vf_below(&g, 3); for (int i = 0; i < len; i++) hist[nh][i] = "abcdABCD"[vf_below(&g, 8)]; hist[nh][len] = 0; nh++; }
+      for (int ui = 0; ui < 5; ui++) for (int h = 0; h < nh; h++) for (int glob = 0; glob < 2; glob++) {
+          if (glob && (hu[ui].cm >= (1 << MX_DTLS10) || !(h < 8 || (h >= nfix && ((h - nfix) & 1))))) continue;   /* not DTLS: the switch is process-wide, and the client (same process here) re-encodes its ClientHello after HelloVerifyRequest */   /* process-wide variant (undone by the exit of the forked child): the first eight histories and every other seeded one */
+          if (!vf_thorough && ui >= 3 && h >= 12 && h < nfix) continue;
+          cfg_t c = base; c.cmask = hu[ui].cm; c.smask = hu[ui].sm; c.ecdsa = hu[ui].ecdsa; int dis[4] = { 0, 0, 0, 0 };
+          for (const char *q = hist[h]; *q && c.nops < 6; q++) { int en = *q < 'a', si = en ? *q - 'A' : *q - 'a'; c.ops[c.nops].id = hu[ui].u[si]; c.ops[c.nops].en = en; c.ops[c.nops].glob = glob; c.nops++; dis[si] = !en; }
+          for (int i = 0; i < 4; i++) if (dis[i]) c.sdis[c.nsdis++] = hu[ui].u[i];
+          const char *cls = glob ? "suite-enable-history-global" : "suite-enable-history";
+          /* offer 1: exactly the disabled suites (must fail); offer 2: the disabled suites first, then the enabled ones (must complete with an enabled one); offer 3: each disabled suite alone */
+          if (c.nsdis) { cfg_t d = c; for (int i = 0; i < 4; i++) if (dis[i]) d.su[d.nsu++] = hu[ui].u[i]; add_case(&d, NULL, cls); }
+          if (c.nsdis < 4) { cfg_t d = c; for (int i = 0; i < 4; i++) if (dis[i]) d.su[d.nsu++] = hu[ui].u[i]; for (int i = 0; i < 4; i++) if (!dis[i]) d.su[d.nsu++] = hu[ui].u[i]; add_case(&d, NULL, cls); }
+          if (c.nsdis > 1 && (vf_thorough || h < 12)) for (int i = 0; i < 4; i++) if (dis[i]) { cfg_t d = c; d.nsu = 1; d.su[0] = hu[ui].u[i]; add_case(&d, NULL, cls); }
+      } }
     for (long i = 0; i < ncases; i++) {
         if (!vf_mine(i)) continue;
         case_t *cs = &cases[i];
         snprintf(cur_desc, sizeof cur_desc, "case=%ld cls=%s c=0x%x s=0x%x nsu=%d su0=%04x dis=%d t=%d/%s/%d/%d/%d scsv=%d", i, cs->cls, cs->c.cmask, cs->c.smask, cs->c.nsu, cs->c.nsu ? cs->c.su[0] : 0, cs->c.nsdis, cs->t.kind, fname[cs->t.field], cs->t.arg, cs->t.arg2, cs->t.which, cs->c.scsv);
         if (cs->c.sig) snprintf(cur_desc + strlen(cur_desc), sizeof cur_desc - strlen(cur_desc), " idS=%s idC=%s sig%c={%s} force=%04x", ident[cs->c.idS].name, ident[cs->c.idC].name, cs->c.sig == 1 ? 'C' : 'S', cs->c.sig == 1 ? algs_str(cs->c.sigC, cs->c.nsigC) : algs_str(cs->c.sigS, cs->c.nsigS), cs->c.force);
+        if (cs->c.ems) snprintf(cur_desc + strlen(cur_desc), sizeof cur_desc - strlen(cur_desc), " ems mode=%d established C%d/S%d judged C%d/S%d", cs->c.ems, cs->c.emsC1, cs->c.emsS1, cs->c.emsC, cs->c.emsS);
+        if (cs->c.nops) { char *o = cur_desc + strlen(cur_desc); o += snprintf(o, 8, " hist="); for (int q = 0; q < cs->c.nops; q++) o += snprintf(o, 12, "%c%04x%s", cs->c.ops[q].en ? '+' : '-', cs->c.ops[q].id, cs->c.ops[q].glob ? "g" : ""); snprintf(o, 40, " offer=%s", algs_str(cs->c.su, cs->c.nsu)); }
         if (cs->c.hrr) snprintf(cur_desc + strlen(cur_desc), sizeof cur_desc - strlen(cur_desc), " hrr groupsC=%u.. groupsS=%u.. ecdsa=%d", cs->c.groupsC[0], cs->c.groupsS[0], cs->c.ecdsa);
         if (vf_case) { long want = -1; sscanf(vf_case, "case=%ld", &want); if (want != i) continue; }
         if (i % 211 == 0) vf_sample("%s", cur_desc);
         mx_entropy_seed(vf_seed * 7919 + i);
-        vf_fork_case(run_case, cs, "c07", cur_desc, 120);
+        vf_fork_case(cs->c.ems ? run_ems_case : run_case, cs, "c07", cur_desc, 120);
     }
     ident_free(); mx_keys_free(); matrixSslClose(); vf_flush();
     return 0;
